@@ -110,6 +110,19 @@ pub const CORPUS: &[&str] = &[
     "SELECT * FROM users AS a FULL JOIN regions AS b ON a.city = b.city",
     "SELECT * FROM orders AS a NATURAL JOIN (SELECT id, user_id, status FROM orders) AS b",
     "SELECT x.city, x.c + y.c AS t FROM (SELECT city, count(*) AS c FROM users GROUP BY city) AS x JOIN (SELECT city, count(*) AS c FROM regions GROUP BY city) AS y ON x.city = y.city",
+    // shapes probing the rendering fixpoint
+    "SELECT * FROM orders LEFT JOIN users ON orders.user_id = users.id AND users.age > 30",
+    "SELECT city FROM users WHERE city = 'it''s' OR city = 'NY'",
+    "SELECT 'a''b' AS s, city FROM users",
+    "SELECT cast(age AS float) AS f, cast(score AS integer) AS i, cast(id AS varchar) AS t FROM users",
+    "SELECT age AS \"My Age\" FROM users ORDER BY \"My Age\"",
+    "SELECT city AS \"City\", count(*) AS \"N\" FROM users GROUP BY city ORDER BY \"City\"",
+    "SELECT DISTINCT city FROM users ORDER BY city",
+    "SELECT id, age FROM users ORDER BY id LIMIT 4 OFFSET 1",
+    "SELECT id, amount FROM orders WHERE amount IS NOT NULL ORDER BY id DESC LIMIT 5",
+    "SELECT u.city, o.status, count(*) AS c FROM users AS u RIGHT JOIN orders AS o ON u.id = o.user_id GROUP BY u.city, o.status",
+    "SELECT id FROM users WHERE NOT (age > 30 AND vip) OR score < 0",
+    "SELECT CASE WHEN age < 20 THEN 'a' WHEN age < 40 THEN 'b' ELSE 'c' END AS band, avg(score) AS s FROM users GROUP BY CASE WHEN age < 20 THEN 'a' WHEN age < 40 THEN 'b' ELSE 'c' END",
 ];
 
 pub fn generate(seed: u64, run: u64) -> Workload {
